@@ -26,6 +26,8 @@ func checkC06(r *core.Run) {
 	if p == nil {
 		return
 	}
+	undoFileAlways(r, p, "R-C06-undo-apply")
+	noUseAfterFree(r, p, "R-C06-undo-apply", "lib/utxo", 3)
 	if cm := p.Func("lib/utxo.(*UnspentDB).commit"); cm != nil {
 		batchTiling(r, p, "R-C06-commit", cm, 2)
 	} else {
